@@ -2,6 +2,41 @@
 use serde_json::{json, Value};
 use std::collections::{BTreeMap, BTreeSet};
 use std::io::Write;
+use std::sync::atomic::{AtomicI32, Ordering};
+
+/// File descriptor the verdict lines go to. Programs under test print through `println!` on the
+/// host (e.g. `Pubkey::log`), so `main` points fd 1 at /dev/null and hands the real stdout here.
+pub static REPORT_FD: AtomicI32 = AtomicI32::new(1);
+
+pub fn out(line: &str) {
+    let fd = REPORT_FD.load(Ordering::SeqCst);
+    let mut buf = line.as_bytes().to_vec();
+    buf.push(b'\n');
+    let mut off = 0;
+    while off < buf.len() {
+        let n = unsafe { libc::write(fd, buf[off..].as_ptr() as *const libc::c_void, buf.len() - off) };
+        if n <= 0 {
+            break;
+        }
+        off += n as usize;
+    }
+}
+
+/// Silence fd 1 for everything except `out`.
+pub fn capture_stdout() {
+    unsafe {
+        let saved = libc::dup(1);
+        let null = libc::open(b"/dev/null\0".as_ptr() as *const libc::c_char, libc::O_WRONLY);
+        if saved >= 0 && null >= 0 {
+            libc::dup2(null, 1);
+            libc::close(null);
+            REPORT_FD.store(saved, Ordering::SeqCst);
+        }
+    }
+}
+macro_rules! outln {
+    ($($arg:tt)*) => { out(&format!($($arg)*)) };
+}
 use std::time::Instant;
 
 #[derive(Clone, Debug)]
@@ -153,7 +188,7 @@ impl Report {
             }
         }
         for (sig, (desc, n)) in &known_hit {
-            println!("KNOWN-FINDING: property={} signature={} occurrences={} {}", self.id, sig, n, desc);
+            outln!("KNOWN-FINDING: property={} signature={} occurrences={} {}", self.id, sig, n, desc);
         }
         // --- floors ---
         let mut unmet = vec![];
@@ -185,9 +220,9 @@ impl Report {
                 if let Ok(mut f) = std::fs::File::create(&p) {
                     let _ = f.write_all(serde_json::to_string_pretty(&body).unwrap().as_bytes());
                 }
-                println!("VIOLATION property={} replay={}", self.id, p.display());
-                println!("  signature: {}", v.signature);
-                println!("  detail: {}", v.detail.chars().take(1200).collect::<String>());
+                outln!("VIOLATION property={} replay={}", self.id, p.display());
+                outln!("  signature: {}", v.signature);
+                outln!("  detail: {}", v.detail.chars().take(1200).collect::<String>());
                 replay_paths.push(p.display().to_string());
                 if replay_paths.len() >= 10 {
                     break;
@@ -195,7 +230,7 @@ impl Report {
             }
             exit = 1;
         } else if !unmet.is_empty() {
-            println!("INCONCLUSIVE property={} reason=coverage floor not met: {}", self.id, unmet.join(", "));
+            outln!("INCONCLUSIVE property={} reason=coverage floor not met: {}", self.id, unmet.join(", "));
             exit = 2;
         }
         // --- evidence ---
@@ -240,7 +275,7 @@ impl Report {
         let _ = std::fs::create_dir_all(&edir);
         let p = edir.join(format!("{}.json", self.id));
         std::fs::write(&p, serde_json::to_string_pretty(&ev).unwrap()).expect("write evidence");
-        println!(
+        outln!(
             "{} {} tier={} seed={} evaluations={} distinct={} wall={:.1}s -> {}",
             self.id,
             verdict,
